@@ -9,6 +9,7 @@ import (
 	"runtime/debug"
 	"sort"
 	"strings"
+	"sync/atomic"
 	"testing"
 	"time"
 
@@ -31,6 +32,7 @@ var (
 	fVerbose = flag.Bool("sim.v", false, "verbose")
 	fDump    = flag.Bool("sim.dump", false, "dump the event log of every case (determinism self-test)")
 	fArm     = flag.String("sim.arm", "", "restrict to one arm of the property (debugging)")
+	fCaseTimeout = flag.Float64("sim.casetimeout", 120, "wall-clock seconds after which a single case is declared stuck (exit 4)")
 )
 
 // Stats accumulates what a worker explored.
@@ -180,10 +182,22 @@ func TestSim(t *testing.T) {
 		defer dump.Close()
 	}
 	shrunk := map[string]bool{}
+	// progress file + watchdog: a case that kills the process (fatal runtime error) or never
+	// ends (a loop that reaches no hook) is identified by the driver from the last index
+	var cur *os.File
+	if *fOut != "" {
+		cur, _ = os.Create(*fOut + ".cur")
+	}
+	startWatchdog()
 	for idx := *fFrom; idx < *fTo; idx += *fStride {
 		if *fBudget > 0 && time.Since(start).Seconds() > *fBudget {
 			break
 		}
+		if cur != nil {
+			cur.WriteAt([]byte(fmt.Sprintf("%-20d", idx)), 0)
+		}
+		caseIdx.Store(int64(idx))
+		caseStart.Store(time.Now().UnixNano())
 		seed := mix(*fSeed, uint64(idx)+1)
 		c := newGenCtx(p.ID, seed, st)
 		c.keepTrace = *fDump
@@ -216,6 +230,7 @@ func TestSim(t *testing.T) {
 		full.Sig = f.sig
 		res.Failures = append(res.Failures, full)
 	}
+	caseStart.Store(0)
 	res.WallS = time.Since(start).Seconds()
 	res.Counts = st.Counts
 	res.Sets = map[string][]string{}
@@ -244,7 +259,23 @@ func TestSim(t *testing.T) {
 	}
 }
 
+var caseStart, caseIdx atomic.Int64
+
+func startWatchdog() {
+	go func() {
+		for {
+			time.Sleep(2 * time.Second)
+			if st := caseStart.Load(); st != 0 && time.Since(time.Unix(0, st)).Seconds() > *fCaseTimeout {
+				fmt.Fprintf(os.Stderr, "WATCHDOG case %d has been running for more than %.0fs\n", caseIdx.Load(), *fCaseTimeout)
+				os.Exit(4)
+			}
+		}
+	}()
+}
+
 func doReplay(t *testing.T) {
+	startWatchdog()
+	caseStart.Store(time.Now().UnixNano())
 	b, err := os.ReadFile(*fReplay)
 	if err != nil {
 		fmt.Fprintln(os.Stderr, err)
@@ -259,6 +290,17 @@ func doReplay(t *testing.T) {
 	if p == nil {
 		fmt.Fprintf(os.Stderr, "unknown property %q\n", rec.Prop)
 		os.Exit(2)
+	}
+	if rec.FromSeed {
+		// the case is regenerated from its seed (records of cases that killed the process)
+		c := newGenCtx(p.ID, mix(rec.Seed, uint64(rec.Index)+1), newStats())
+		f := runCase(p, c)
+		sig := ""
+		if f != nil {
+			sig = f.sig
+		}
+		fmt.Printf("{\n \"property\": %q, \"expected\": %q, \"observed\": %q, \"reproduced\": false\n}\n", rec.Prop, rec.Sig, sig)
+		return
 	}
 	sig, full := replayRecord(p, &rec, true)
 	res := map[string]any{"property": rec.Prop, "expected": rec.Sig, "observed": sig, "reproduced": sig == rec.Sig && sig != "", "detail": full.Detail, "scenario": full.Scenario, "trace_len": len(full.Trace), "trace_hash": fmt.Sprintf("%x", hashTrace(full.Trace))}
